@@ -34,6 +34,7 @@ type c03Desc struct {
 	Order  []string `json:"order"`
 	Dirs   int      `json:"dirs"`
 	Odd    bool     `json:"odd_names"`
+	HoldLaunch bool `json:"hold_launch,omitempty"` // the launch loop is paused after the first extension was started: it registers while the others do not exist yet
 	Gap    int      `json:"gap_ms_after_rt_next,omitempty"` // let the init sequence run on after the runtime's first next before the next step is issued
 }
 
@@ -131,6 +132,9 @@ func genC03(tier string, seed int64) []Case {
 	seen := map[string]bool{}
 	add := func(d c03Desc) {
 		id := fmt.Sprintf("C03/e[%s]/i[%s]/d%d/%s", strings.Join(d.Ext, ","), strings.Join(d.Int, ","), d.Dirs, strings.Join(d.Order, ">"))
+		if d.HoldLaunch {
+			id += "/hold-launch"
+		}
 		if seen[id] {
 			return
 		}
@@ -167,6 +171,11 @@ func genC03(tier string, seed int64) []Case {
 			d.Odd = oi%3 == 0
 			d.Gap = 3 * ((oi / 2) % 2)
 			add(d)
+			if cf.ne >= 2 && d.Order[0] == "e0.register" && oi%4 == 0 {
+				h := d
+				h.Odd, h.HoldLaunch = false, true
+				add(h)
+			}
 		}
 	}
 	// every subscription assignment for (2 ext, 1 int) with each party held last
@@ -272,7 +281,14 @@ func runC03(c *Ctx, d c03Desc) {
 	pup := func(*vh.Proc) vh.ExecPlan { return vh.ExecPlan{Behave: vh.Puppet{ExitOnTerm: true}.Run} }
 	w.RtPlan = func(gen int, p *vh.Proc) vh.ExecPlan { return pup(p) }
 	w.ExtPlan = func(base string, gen int, p *vh.Proc) vh.ExecPlan { return pup(p) }
+	if d.HoldLaunch {
+		hk.Hold("exec.beforeExitChannel", 1)
+	}
 	w.E.Init()
+	if d.HoldLaunch && !hk.WaitHeld("exec.beforeExitChannel", 5*time.Second) {
+		c.Inconclusive("pause point exec.beforeExitChannel not reached")
+		return
+	}
 
 	parties := map[string]*vh.Party{}
 	pending := map[string]*vh.Async{} // outstanding next per party
@@ -318,7 +334,18 @@ func runC03(c *Ctx, d c03Desc) {
 	}
 	intName := func(i int) string { return fmt.Sprintf("internal%d", i) }
 
-	for _, stepName := range d.Order {
+	for stepIdx, stepName := range d.Order {
+		if d.HoldLaunch && stepIdx == 1 {
+			// the first extension has registered while the launch loop was paused: let it launch the others
+			launched := 0
+			for _, p := range w.E.Sup.Procs() {
+				if p.Role == "ext" {
+					launched++
+				}
+			}
+			c.Check(launched == 1, "registered_during_launch", "C03/harness-hold-launch", "launch loop was not paused after the first extension", launched)
+			hk.Release("exec.beforeExitChannel")
+		}
 		dot := strings.Index(stepName, ".")
 		party, op := stepName[:dot], stepName[dot+1:]
 		switch {
@@ -546,7 +573,7 @@ func runC03(c *Ctx, d c03Desc) {
 
 	lifecycleOracle(c, w)
 	c.SetInterleaving(strings.Join(d.Order, ">"))
-	c.SetTrace(fmt.Sprintf("e%v i%v d%d ", d.Ext, d.Int, d.Dirs)+strings.Join(d.Order, ">"), true)
+	c.SetTrace(fmt.Sprintf("e%v i%v d%d h%v ", d.Ext, d.Int, d.Dirs, d.HoldLaunch)+strings.Join(d.Order, ">"), true)
 	if c.WantSample || c.Violated() {
 		c.SetSample(sampleLog(w, 100))
 	}
